@@ -135,6 +135,7 @@ class SymEx:
         self._gcache = {}
         self._defs_in_frame = {}
         self.try_lookup = 0
+        self.try_value = 0
         self.closures = {}
         self.dyn = {}
 
@@ -359,6 +360,13 @@ class SymEx:
             exc = '?'
             out = []
             if s.exc is None:
+                hd = st.env.get('@handling')
+                if hd is not None and hd[1] not in ('?', None):
+                    # a bare `raise` inside the handler of a modelled exception raises that exception again
+                    owner = self.fn.cls.name if self.fn.cls is not None else (getattr(self, '_deco_owner', None) or [None])[-1]
+                    x = st.ev(Ev('raise', exc=hd[1], site=self.site(s), fn=self.fn.qn, args=()))
+                    x.exc = ('raise', hd[1], self.site(s), self.fn.qn, owner)
+                    return [(x, None)]
                 return [(st.copy(exc=('reraise', self.site(s))), None)]
             e = s.exc
             cname = ast.unparse(e.func) if isinstance(e, ast.Call) else ast.unparse(e)
@@ -405,6 +413,11 @@ class SymEx:
                 for y, v in self.ev(s.value, x):
                     if y.exc is None:
                         nv = self.binop(s.op, old, v)
+                        if isinstance(s.target, ast.Name) and isinstance(s.op, ast.Add) and (v[0] == 'list' or _evident_sequence(v)) \
+                                and not _is_local_container(old) and (old[0] == 'attr' or (old[0] == 'call' and old[1][0] in ('fn', 'meth'))):
+                            # `xs += <list>` extends in place the object xs is bound to: when that is somebody else's list (an attribute, the answer of
+                            # a call) rather than a container built here, the owner sees the change
+                            y = y.ev(Ev('write', loc=old, value=nv, how='mut:extend', site=self.site(s), fn=self.fn.qn, old=None, delta=None, local=False))
                         y = self.assign(s.target, nv, y, s, how='aug', old=old, delta=(v, type(s.op).__name__))
                     out.append((y, None))
             return out
@@ -650,12 +663,21 @@ class SymEx:
                 for e in p.flat_events(False):
                     if e.kind == 'write' and e.how in ('assign', 'aug') and e.loc in x.heap or (e.kind == 'write' and e.how in ('assign', 'aug')):
                         written.add(e.loc)
+            # containers built on this path and held in a field (self.table = {} ... self.table[k] = v in the loop) are carried like local ones
+            cbases = set()
+            for p in probe:
+                for e in p.flat_events(False):
+                    if e.kind == 'write' and e.how == 'assign' and not e.d.get('local') and e.loc[0] == 'sub' and e.loc[1] in x.heap and _is_local_container(x.heap[e.loc[1]]):
+                        cbases.add(e.loc[1])
+            cbases -= written
             hb = b.copy()
             pre_heap = {}
             for loc in written:
                 pre_heap[loc] = x.heap.get(loc, loc)
                 hb.heap[loc] = ('lc', T.fmt(loc), lid)
-            paths = self._loop_body(s, hb, is_for) if written else probe
+            for loc in cbases:
+                hb.heap[loc] = ('lc', T.fmt(loc), lid)
+            paths = self._loop_body(s, hb, is_for) if (written or cbases) else probe
             # merge: additive updates become sums, everything else is havoc
             y = x.copy()
             normal = [p for p in paths if p.outcome in ('fall', 'continue')]
@@ -699,6 +721,14 @@ class SymEx:
                     deltas.append(None if dep else T.unrat(d))
                 if deltas and all(d is not None for d in deltas) and all(T.teq(d, deltas[0]) for d in deltas):
                     y.heap[loc] = T.t_add(pre_heap[loc], ('sum', lid, deltas[0]))
+                else:
+                    y.heap[loc] = ('havoc', T.fmt(loc), lid)
+            for loc in cbases:
+                vals = [p.heap.get(loc) for p in normal]
+                root_ = ('lc', T.fmt(loc), lid)
+                if vals and all(v is not None and _rooted(v, root_) for v in vals):
+                    cmp_ = self._accum_to_comp(lid, x.heap[loc], paths, T.fmt(loc), it, is_for, get=lambda p, loc=loc: p.heap.get(loc))
+                    y.heap[loc] = cmp_ if cmp_ is not None else ('accum', lid, x.heap[loc], tuple(vals))
                 else:
                     y.heap[loc] = ('havoc', T.fmt(loc), lid)
             test_t = None
@@ -747,7 +777,7 @@ class SymEx:
                 out = nxt
         return out
 
-    def _accum_to_comp(self, lid, pre, paths, name, it, is_for):
+    def _accum_to_comp(self, lid, pre, paths, name, it, is_for, get=None):
         """An accumulation loop over an empty container with one append/setitem per (optionally filtered) element is the
         comprehension it spells: for x in it: if c: out.append(f(x))  ==  [f(x) for x in it if c]."""
         if not is_for:
@@ -765,7 +795,7 @@ class SymEx:
             if p.outcome not in ('fall', 'continue'):
                 return None
             normal_conds.append({(T.tkey(c), b) for c, b, _ in p.conds})
-            v = p.env.get(name)
+            v = p.env.get(name) if get is None else get(p)
             if v == root:
                 continue
             if v[0] == 'call' and v[1][0] == 'ext' and v[1][1] in ('APPENDED', 'SETITEM') and v[2][0] == root and not v[3]:
@@ -869,13 +899,19 @@ class SymEx:
         before = getattr(self, '_modelled_lookups', 0)
         catches_key = any(h.type is not None and any(z in ('KeyError', 'LookupError') for z in
                                                       ([ast.unparse(q) for q in h.type.elts] if isinstance(h.type, ast.Tuple) else [ast.unparse(h.type)])) for h in s.handlers)
+        catches_value = any(h.type is not None and any(z == 'ValueError' for z in
+                                                       ([ast.unparse(q) for q in h.type.elts] if isinstance(h.type, ast.Tuple) else [ast.unparse(h.type)])) for h in s.handlers)
         self.try_lookup += 1 if catches_key else 0
+        self.try_value += 1 if catches_value else 0
         try:
             body = self.block(s.body, st)
         finally:
             self.try_lookup -= 1 if catches_key else 0
-        # a body made only of modelled table lookups raises nothing the model does not show
-        only_lookups = getattr(self, '_modelled_lookups', 0) > before and not any(isinstance(n, ast.Call) for b_ in s.body for n in ast.walk(b_))
+            self.try_value -= 1 if catches_value else 0
+        # a body made only of modelled table lookups (and, under `except ValueError`, of int() conversions) raises nothing the model does not show
+        only_lookups = getattr(self, '_modelled_lookups', 0) > before and not any(
+            isinstance(n, ast.Call) and not (catches_value and isinstance(n.func, ast.Name) and n.func.id == 'int' and len(n.args) == 1 and not n.keywords)
+            for b_ in s.body for n in ast.walk(b_))
         catch_all = any(h.type is None or (isinstance(h.type, ast.Name) and h.type.id in ('Exception', 'BaseException')) for h in s.handlers)
         for x, oc in body:
             if x.exc is not None:
@@ -888,6 +924,7 @@ class SymEx:
                         y = x.copy(exc=None)
                         if h.name:
                             y.env[h.name] = ('exc', exc_cls)
+                        y.env['@handling'] = ('exc', exc_cls)
                         out.extend(self.block(h.body, y))
                         handled = True
                         break
@@ -967,6 +1004,19 @@ class SymEx:
                 x = x.ev(Ev('write', loc=('sub', ('var', t.value.id), k), value=v, how=how, site=self.site(node), fn=self.fn.qn, old=old,
                             delta=delta, local=True))
             return x
+        if isinstance(t, ast.Subscript) and isinstance(t.value, ast.Attribute) and isinstance(t.value.value, ast.Name) and t.value.value.id in st.env:
+            # obj.field[k] = v where obj.field was bound, earlier on this path, to a container built here: the location is the field's element
+            # (not an element of the container literal), and the field now holds the container with that element set
+            base = ('attr', st.env[t.value.value.id], t.value.attr)
+            oldc = st.heap.get(base)
+            if oldc is not None and _is_local_container(oldc):
+                r = self.ev(t.slice, st)
+                x, k = r[0]
+                x = x.copy()
+                x.heap[base] = ('call', ('ext', 'SETITEM'), (oldc, k, v), ())
+                if not silent:
+                    x = x.ev(Ev('write', loc=('sub', base, k), value=v, how=how, site=self.site(node), fn=self.fn.qn, old=old, delta=delta))
+                return x
         (x, loc), = self.loc(t, st)[:1]
         x = x.copy()
         if old is None:
@@ -996,7 +1046,7 @@ class SymEx:
             if isinstance(op, ast.Add):
                 if a[0] in ('str', 'fmt') or b[0] in ('str', 'fmt'):
                     return _concat(a, b)
-                if a[0] in ('list', 'tuple') or b[0] in ('list', 'tuple'):
+                if a[0] in ('list', 'tuple') or b[0] in ('list', 'tuple') or _evident_sequence(a) or _evident_sequence(b):
                     return ('call', ('ext', 'CONCAT'), (a, b), ())
                 return T.t_add(a, b)
             if isinstance(op, ast.Sub):
@@ -2244,6 +2294,18 @@ class SymEx:
         args = _canon_reducer_args(fv, args)
         if fv == ('ext', 'INT') and len(args) == 1 and not kws and args[0][0] == 'call' and args[0][1] == ('ext', 'INT'):
             return [(st, args[0])]
+        if fv == ('ext', 'INT') and len(args) == 1 and not kws and self.try_value and not self.in_comp and not self.suppress and args[0][0] not in ('str', 'num'):
+            # inside `try: ... except ValueError`: int(x) raises ValueError exactly when the number is NaN (an infinity raises OverflowError, which is not caught)
+            self._modelled_lookups = getattr(self, '_modelled_lookups', 0) + 1
+            out = []
+            for y, isn in self.decide(('call', ('ext', 'ISNAN'), (args[0],), ()), st, e):
+                if isn:
+                    z = y.ev(Ev('raise', exc='ValueError', site=site, fn=fn.qn, args=(args[0],)))
+                    z.exc = ('raise', 'ValueError', site, fn.qn, fn.cls.name if fn.cls is not None else None)
+                    out.append((z, ZERO))
+                else:
+                    out.append((y, ('call', ('ext', 'INT'), (args[0],), ())))
+            return out
         if fv == ('ext', 'FLOAT') and len(args) == 1 and not kws and args[0][0] != 'str':
             return [(st, args[0])]          # float(x) is the identity on numbers (over the reals)
         if fv[0] == 'ext' and len(args) == 1 and not kws and args[0] in (('list', ()), ('dict', ())) and fv[1] in _EMPTY_FOLD:
@@ -2713,6 +2775,17 @@ def _unget(b):
 
 
 LOCAL_CONTAINER_OPS = ('APPENDED', 'UPDATED', 'EXTENDED', 'SETITEM')
+
+
+def _evident_sequence(v):
+    """v is certainly a list-like collection (not a number): list(...), sorted(...), .keys()/.values()/.items(), a list comprehension"""
+    if v[0] == 'call' and v[1][0] == 'ext' and v[1][1] in ('LIST', 'SORTED', 'CONCAT', 'EXTENDED', 'APPENDED'):
+        return True
+    if v[0] == 'call' and v[1][0] == 'meth' and v[1][1] in ('keys', 'values', 'items') and len(v[2]) == 1:
+        return True
+    if v[0] == 'comp' and v[1] == 'list':
+        return True
+    return False
 
 
 def _is_local_container(v):
